@@ -195,7 +195,9 @@ class Inliner:
             return None, None
         if set(t.decorators) - {"staticmethod", "classmethod"}:
             return None, None
-        if t.short in self.keep or t.qualname.rsplit(".", 1)[-1] in self.keep or not self.policy(t):
+        if t.short in self.keep or t.qualname.rsplit(".", 1)[-1] in self.keep:
+            return None, None
+        if not self.policy(t) and not self._internal_module_helper(t):
             return None, None
         if t.parent is not None:
             return None, None  # closures capture their environment
@@ -204,6 +206,16 @@ class Inliner:
         elif recv is None and t.cls is not None and not t.is_static():
             return None, None  # unbound method called through the class
         return t, recv
+
+    def _internal_module_helper(self, t: Unit) -> bool:
+        """A plain function of a private module (``_core``, ``_utility``) that is not part of
+        the package's public API: an internal helper whatever its name."""
+        if not t.module.short.startswith("_") or t.cls is not None or t.kind != "coroutine":
+            return False  # (sync functions of _core such as aiter/awaitify are the library's vocabulary)
+        try:
+            return not self.pkg._is_public(t)
+        except Exception:  # noqa: BLE001
+            return False
 
     # ------------------------------------------------------------------ expansion
     def _expand(self, st, call, awaited, holder, fld, target: Unit, recv) -> Optional[List[ast.stmt]]:
